@@ -19,7 +19,8 @@
    [real_verify K cr o] = the signer oracle of the SendBid model is the Signer model's verifier. *)
 From Coq Require Import String List NArith ZArith Bool.
 From MevVerif Require Import lib.Bytes model.NoPanic model.Eip712 model.Signer proofs.NoPanic_proofs.
-From MevVerif Require model.PreconfBidder model.BidderApi.
+From MevVerif Require lib.Varint model.PreconfBidder model.BidderApi model.PreconfProvider model.ProviderSvc model.Rules
+  model.Handshake model.Framing model.Topology proofs.PreconfProvider_traces proofs.Handshake_proofs proofs.Framing_proofs proofs.Topology_proofs.
 Import ListNotations.
 Open Scope N_scope.
 
@@ -44,17 +45,61 @@ Theorem C06_no_panic_construct_preconf : forall K cr (b : bid),
 Proof. exact signer_construct_preconf_no_panic. Qed.
 Print Assumptions C06_no_panic_construct_preconf.
 
-(* handleBid parses the amount again after VerifyBid accepted the bid and hands the result to
-   StoreCommitment, which dereferences it: the parse cannot fail there.
-   _partial: stated over the Signer / Eip712 models only; the handler machine model/PreconfProvider.v
-   (its RPanic outcome is exactly "amount does not parse after the verify gate said yes", with the
-   gate an oracle) was still being edited by its owner when this file was written, so the theorem does
-   not mention it.  The handler as a whole is covered by layer (2) and by the handle-bid driver. *)
-Theorem C06_handle_bid_amount_parses_partial : forall K cr (b : bid) a,
+(* handleBid as a whole, over the handler machine of model/PreconfProvider.v under the node's wiring: any
+   number of concurrent handlers, any event history (arrivals with any role / read / verify / allowance
+   answers -- even a verify gate that lies --, engine takes, decisions, deadlines, store and write results):
+   no handler ever ends in RPanic (the nil amount handed to StoreCommitment).  No premise: the format rule
+   the provider API applies before the engine sees a bid already forces the amount to parse. *)
+Theorem C06_no_panic_handle_bid : forall K addr evs h,
+  ProviderSvc.nget h (PreconfProvider.hs
+    (PreconfProvider.run K ProviderSvc.rules_validators (PreconfProvider.node_wiring addr) evs))
+  <> Some (PreconfProvider.HDone PreconfProvider.RPanic).
+Proof. exact PreconfProvider_traces.no_rpanic_node. Qed.
+Print Assumptions C06_no_panic_handle_bid.
+
+(* The two hand-written copies of big.Int.SetString(s, 10) (provider model, EIP-712 model) are one function,
+   and a bid that VerifyBid accepts has an amount that parses and is in range. *)
+Theorem C06_verified_amount_parses : forall K cr (b : bid) a,
   verify_bid K cr b = Ok a ->
-  exists z, parse_amount (b_amt b) = Some z /\ amount_out_of_range z = false.
-Proof. exact verified_amount_parses. Qed.
-Print Assumptions C06_handle_bid_amount_parses_partial.
+  exists z, PreconfProvider.parse_bigint (b_amt b) = Some z /\ amount_out_of_range z = false.
+Proof. exact verified_amount_parses_provider. Qed.
+Print Assumptions C06_verified_amount_parses.
+
+(* "the exchange ends with an error": hostile values are refused, not accepted. *)
+Theorem C06_signature_length_refused : forall K cr (b : bid) s,
+  b_sig b = Some s -> length s <> 65%nat -> exists e, verify_bid K cr b = Err e.
+Proof. exact signature_length_refused. Qed.
+Print Assumptions C06_signature_length_refused.
+
+Theorem C06_missing_bid_refused : forall K cr (c : preconf),
+  c_bid c = None -> verify_preconf K cr c = Err E_MISSING.
+Proof. exact missing_bid_refused. Qed.
+Print Assumptions C06_missing_bid_refused.
+
+Theorem C06_missing_member_refused : forall K cr (b : bid),
+  b_dig b = None \/ b_sig b = None -> verify_bid K cr b = Err E_MISSING.
+Proof. exact missing_member_refused. Qed.
+Print Assumptions C06_missing_member_refused.
+
+Theorem C06_bad_amount_refused : forall K cr (b : bid) d s,
+  b_dig b = Some d -> b_sig b = Some s -> parse_amount (b_amt b) = None -> verify_bid K cr b = Err E_AMOUNT.
+Proof. exact bad_amount_refused. Qed.
+Print Assumptions C06_bad_amount_refused.
+
+Theorem C06_wrong_digest_refused : forall K cr (b : bid) d s h,
+  b_dig b = Some d -> b_sig b = Some s -> bid_hash K b = Ok h -> bytes_eqb h d = false ->
+  verify_bid K cr b = Err E_HASH.
+Proof. exact wrong_digest_refused. Qed.
+Print Assumptions C06_wrong_digest_refused.
+
+(* The summary the drivers compute for a Bid and compare with the real VerifyBid on every run is a function
+   of the Signer model's own ingredients, and the table's verdict on it IS the model's outcome class --
+   for the code as it is now and for the variant without the signature-length test. *)
+Theorem C06_summary_sound : forall K cr (b : bid) f, recover_total cr -> recover_len cr ->
+  verify_bid_in f (summary K cr b) =
+  class_of (verify_bid_with (bid_hash K) (if f_siglen f then eip_verify cr else eip_verify_v0 cr) b).
+Proof. exact summary_sound. Qed.
+Print Assumptions C06_summary_sound.
 
 (* Before c3de1fc / c47eaee the verifier did panic: a 3-byte signature behind a matching digest,
    and a commitment without a bid.  The same messages are refused with an error now. *)
@@ -85,17 +130,111 @@ Theorem C06_no_panic_bidder_api : forall o a view D r fail_at,
 Proof. exact bidder_api_no_panic. Qed.
 Print Assumptions C06_no_panic_bidder_api.
 
-(* ---- (2) every entry point, over the classification -------------------------------------------------- *)
+(* ---- the handshake protocol -------------------------------------------------------------------------------
+   Panic-prone operations in the Go source and their guards (pkg/p2p/libp2p/internal/handshake/handshake.go,
+   pkg/signer/signer.go, pkg/p2p/libp2p/address.go, libp2p.go):
+     verifyReq      req.PeerType + req.Token                  string concatenation, any length
+                    h.signer.Verify(req.Sig, data)            signature[:len-1]: see C06_no_panic_signer_verify
+                    h.getEthAddress(peerID)                   ExtractPublicKey / Raw / DecompressPubkey errors are
+                                                              returned BEFORE the key is dereferenced
+                                                              (FromECDSAPub(key)[1:]); driver entry peer-id-address
+                    bytes.Equal(observed, recovered)          any lengths
+                    h.register.CheckProviderRegistered        interface set by libp2p.New from Options.Register
+     verifyResp     bytes.Equal(resp.ObservedAddress, ...)    any length; string comparison
+     Handle         new(HandshakeReq) / stream.ReadMsg error returned; ethAddress.Bytes(); p2p.FromString: default -1
+     Handshake      the same in the other order
+     handleConnectReq  s.metrics.Failed...Count.Inc()         counters always exist (1f15f90, Generated.v);
+                    peer dereferenced only when err == nil (Handle returns a non-nil peer then); s.notifier != nil tested
+     Connect        addrInfo.UnmarshalJSON error returned; len(Addrs) == 0 tested; p dereferenced only when err == nil
+   None of these indexes, slices or dereferences peer-controlled data without a guard, which is why the result
+   types of model/Handshake.v have no crash constructor. *)
 
-(* No input to any peer-facing entry makes the code as it is now panic: hostile Bid /
-   PreConfirmation values at VerifyBid, VerifyPreConfirmation, ConstructPreConfirmation, handleBid,
-   SendBid's reply path and the API loop behind it; any signature length at signer.Verify; any
-   script of requests / responses / read and write failures at Handle and Handshake; any PeerList;
-   every frame class at ReadMsg / ReadHeader; raw bytes at proto.Unmarshal; garbage underlays at
-   Connect; and a hostile handshake partner of a Service with or without a metrics registry. *)
-Theorem C06_no_panic_any_entry : forall i : entry_input, panics i = false.
+(* signer.Verify never panics: the slice expression is only reached for 65-byte signatures. *)
+Theorem C06_no_panic_signer_verify : forall K cr sig msg,
+  recover_total cr -> recover_len cr -> signer_verify K cr sig msg <> Panic.
+Proof. exact signer_verify_no_panic. Qed.
+Print Assumptions C06_no_panic_signer_verify.
+
+(* Handle and Handshake, for every script of incoming frames, every oracle and every write-failure pattern,
+   end in an enrolment or in one of the seven refusals. *)
+Theorem C06_handshake_outcomes : forall c o wfail script,
+  let closed r := (exists A T, r = Handshake.Enrol A T) \/
+                  (exists cl, r = Handshake.Refuse cl /\
+                     In cl [Handshake.RSig; Handshake.RAddr; Handshake.RStake; Handshake.RRead;
+                            Handshake.RWrite; Handshake.RPid; Handshake.REcho]) in
+  closed (Handshake.res (Handshake.handle c o wfail script)) /\
+  closed (Handshake.res (Handshake.handshake c o wfail script)).
+Proof. exact handshake_outcomes. Qed.
+Print Assumptions C06_handshake_outcomes.
+
+(* "...ends with an error or a stream reset": every transcript that is not the one admissible exchange is
+   refused, the connection is closed and nothing is registered, announced or returned (inbound wrapper
+   handleConnectReq, outbound wrapper Connect). *)
+Theorem C06_hostile_handshake_refused_inbound : forall c o wfail script,
+  (forall A T, ~ Handshake.resp_ok c o wfail script A T) ->
+  exists cl, Handshake.res (Handshake.handle c o wfail script) = Handshake.Refuse cl /\
+    forall has_notifier add,
+      let eff := Handshake.inbound c o wfail script has_notifier add in
+      In Handshake.EClosePeer eff /\ forall e, In e eff -> Handshake.announces e = false.
+Proof. exact Handshake_proofs.refuse_responder. Qed.
+Print Assumptions C06_hostile_handshake_refused_inbound.
+
+Theorem C06_hostile_handshake_refused_outbound : forall c o wfail script,
+  (forall A T, ~ Handshake.init_ok c o wfail script A T) ->
+  exists cl, Handshake.res (Handshake.handshake c o wfail script) = Handshake.Refuse cl /\
+    forall add,
+      let eff := Handshake.outbound c o wfail script add in
+      In Handshake.EClosePeer eff /\ In (Handshake.EReturnErr cl) eff /\
+      forall e, In e eff -> Handshake.announces e = false.
+Proof. exact Handshake_proofs.refuse_initiator. Qed.
+Print Assumptions C06_hostile_handshake_refused_outbound.
+
+(* ---- frames (model/Framing.v, byte level) --------------------------------------------------------------------
+   Panic-prone operations in stream.go: none in the repository's own code -- s.rw.ReadMsg() (msgio: length
+   prefix, size limit, allocation) and proto.Unmarshal are library calls whose errors are returned; GetError() /
+   GetData() are nil-safe getters.  The reader model is total on arbitrary bytes by construction (parse1: fewer
+   than four bytes / length 0 / above the limit / fewer bytes than announced / a frame); read_msg maps every
+   frame to exactly one of payload | status error | no-data | neither | malformed. *)
+Theorem C06_oversized_frame_sticks_reader : forall body rest,
+  Framing.max_msg < Varint.len_of body -> Varint.len_of body < 256 ^ N.of_nat Framing.len_size ->
+  Framing.parse1 (Framing.frame body ++ rest) = Framing.TooLarge.
+Proof. exact Framing_proofs.parse1_frame_too_large. Qed.
+Print Assumptions C06_oversized_frame_sticks_reader.
+
+Theorem C06_oversized_stays_refused : forall buf more,
+  Framing.parse1 buf = Framing.TooLarge -> Framing.parse1 (buf ++ more) = Framing.TooLarge.
+Proof. exact Framing_proofs.parse1_large_app. Qed.
+Print Assumptions C06_oversized_stays_refused.
+
+(* ---- discovery (model/Topology.v) -------------------------------------------------------------------------------
+   handlePeersList: ReadMsg error returned; the loop reads p.EthAddress / p.Underlay of decoded entries (never
+   nil elements after proto.Unmarshal), common.BytesToAddress crops or pads any length, channel send guarded by
+   ctx.Done().  For every received list (any entries, any lengths) the step only dials the underlays of entries
+   whose address is not connected; the views and the announcements are untouched. *)
+Theorem C06_peers_list_only_dials : forall s from ok entries,
+  let s' := fst (Topology.step s (Topology.Gossip from ok entries)) in
+  let eff := snd (Topology.step s (Topology.Gossip from ok entries)) in
+  Topology.providers s' = Topology.providers s /\ Topology.bidders s' = Topology.bidders s /\
+  Topology.dials eff = (if ok then Topology.to_dial s entries else []) /\
+  Topology.inflight s' = Topology.inflight s ++ Topology.dials eff /\
+  Topology.announces eff = [] /\ Topology.wires eff = [] /\ Topology.adds eff = [].
+Proof. exact Topology_proofs.gossip_step. Qed.
+Print Assumptions C06_peers_list_only_dials.
+
+(* ---- (2) the entry table ------------------------------------------------------------------------------------------
+   model/NoPanic.v predicts, per entry kind and input summary, whether the Go code panics.  For the signer
+   entries the table is tied to the Signer model by C06_summary_sound; for handleBid, SendBid and the API loop the
+   theorems above speak about the real models.  For the remaining kinds -- signer.Verify lengths, handshake
+   scripts, peer lists, frame classes, proto.Unmarshal, Connect on underlay bytes, peer types / topology, peer-id
+   kinds, and the end-to-end classes with a registry -- the table entry is the constant "no panic": THIS THEOREM
+   SAYS NOTHING ABOUT THE GO CODE FOR THEM; it records what the drivers compare the real entry points against on
+   every run, and the no-panic claim for those entries rests on that sampled correspondence (for handshake,
+   frames and discovery also on the arguments and theorems above).  The only computed content is: the signer
+   rows (present repairs c3de1fc / c47eaee) and the end-to-end rows without a registry (libp2p.New creates the
+   failure counters: metrics_always_created, regenerated from the source). *)
+Theorem C06_entry_table_predicts_no_panic : forall i : entry_input, panics i = false.
 Proof. exact panics_never. Qed.
-Print Assumptions C06_no_panic_any_entry.
+Print Assumptions C06_entry_table_predicts_no_panic.
 
 (* Exactly where the snapshot's VerifyBid panicked: digest and signature present, the amount
    parses, the digest matches, and the signature has at most 64 bytes -- nowhere else. *)
